@@ -17,6 +17,7 @@ mod common;
 mod driver;
 mod hexio;
 mod hexread;
+mod incmodel;
 mod inctree;
 mod multibuild;
 mod proggen;
